@@ -65,7 +65,7 @@ func init() {
 		MinDistinct: 100,
 		Plan: func(tier string) []core.Suite {
 			if tier == "thorough" {
-				return []core.Suite{{Name: "enum", N: len(c06Enum(tier)), Exhaustive: true}, {Name: "rand", N: 150000}, {Name: "tall", N: 60, CaseTimeout: 900}}
+				return []core.Suite{{Name: "enum", N: len(c06Enum(tier)), Exhaustive: true}, {Name: "rand", N: 400000}, {Name: "tall", N: 120, CaseTimeout: 900}}
 			}
 			return []core.Suite{{Name: "enum", N: len(c06Enum(tier)), Exhaustive: true}, {Name: "rand", N: 10000}, {Name: "tall", N: 4, CaseTimeout: 900}}
 		},
